@@ -218,7 +218,7 @@ def run(ctx, rep):
         if offs_k is not None:
             k, ml = offs_k
             if k > ml:
-                rep.violation("R05.1", "open|%s|min-len=%d" % (re.sub(r"vec!\[\.\.\]|[\w:.()]*global_offsets", "offsets", sig)[:90], ml),
+                rep.violation("R05.1", "open|%s|min-len=%d" % (re.sub(r"[\w:.]*\.global_offsets", "offsets-of-a-chunk-under-construction", re.sub(r"vec!\[\.\.\]", "offsets", sig))[:110], ml),
                               sig[:100], "recovery can panic: the offset vector of a recovered chunk can have only %d element(s) (a chunk "
                               "file with zero complete records) but this site needs %d" % (ml, k), where=g.where(n))
             else:
